@@ -7,6 +7,8 @@
                s:<hex bytes> null undef dflt p0 p1 st:<hex bytes>        value: literal | h<slot>
      C,<lit>  A,<c|uc|s|us|i|ui|l|ul>,<dec>  P,<lit>  Q,<kind>,<lit>  T,<kind>,<lit>  K,<lit>
      KR<mode>,<lit>,...                  run the echo kernel (mode 0 push, 1 runN, 2 runWithArgs)
+     SD<c|a>,<lit>                       occaScopeAddConst / occaScopeAdd: the declaration in the inlined kernel
+     SC<c|a>,<lit>,...                   ... and what an inlined (JIT) kernel reads (shapes: b,i8,i16,i32,i64,f32,f64 / u8,u16,u32,u64)
      n,N  f,N  u,N  v,N
      os,N,<hexkey>,<value>   og,N,<hexkey>,M,<lit default>   oh,N,<hexkey>
      ap,N,<value>  ai,N,<idx>,<value>  ag,N,<idx>,M  ao,N  ac,N  az,N
@@ -115,6 +117,10 @@ let parse_op (tok : string) : op =
   | ["T"; k; l] -> OpT (kind_of_name k, parse_lit l)
   | ["K"; l] -> OpK (parse_lit l)
   | kr :: args when String.length kr = 3 && String.sub kr 0 2 = "KR" -> OpKRun (List.map parse_lit args)
+  | ["SDc"; l] -> OpScopeDecl (true, parse_lit l)
+  | ["SDa"; l] -> OpScopeDecl (false, parse_lit l)
+  | "SCc" :: args -> OpScopeRun (true, List.map parse_lit args)
+  | "SCa" :: args -> OpScopeRun (false, List.map parse_lit args)
   | ["n"; n] -> OpNew (nat_s n)
   | ["f"; n] -> OpFree (nat_s n)
   | ["u"; n] -> OpIsUndef (nat_s n)
@@ -169,6 +175,12 @@ let rec obs_str (o : obs) : string =
   | OKArg a ->
     let pt, k = (match a.ka_pt with PTNone -> "none", None | PTPtr -> "ptr", None | PTK k -> kind_name k, Some k) in
     Printf.sprintf "karg:%s:%s:%s:%s" pt (payload_str k a.ka_val) (dec_of_z (ka_size a)) (b01 (ka_isPointer a))
+  | ODecl (ic, c, ip) ->
+    let cn = (match c with
+      | CNBool -> "bool" | CNChar -> "char" | CNUChar -> "uchar" | CNShort -> "short" | CNUShort -> "ushort"
+      | CNInt -> "int" | CNUInt -> "uint" | CNLong -> "long" | CNULong -> "ulong" | CNFloat -> "float"
+      | CNDouble -> "double" | CNVoid -> "void") in
+    Printf.sprintf "decl:%s:%s:%s" (b01 ic) cn (b01 ip)
   | OList l -> "[" ^ String.concat "|" (List.map obs_str l) ^ "]"
   | OBool b -> if b then "true" else "false"
   | OInt z -> dec_of_z z
